@@ -565,6 +565,14 @@ fn define_function(env: &mut PackageTypeEnv, diagnostics: &mut Diagnostics, func
         }
         None => tast::Ty::TUnit,
     };
+    if env.current().value_env.funcs.contains_key(&name) {
+        diagnostics.push(Diagnostic::new(
+            Stage::Typer,
+            Severity::Error,
+            format!("Function {} is already defined", name),
+        ));
+        return;
+    }
     env.current_mut().value_env.funcs.insert(
         name,
         FnScheme {
